@@ -3,4 +3,4 @@
 Require Extraction.
 Require Import ExtrOcamlBasic.
 From Z80V Require Import Spec.Exec.
-Extraction "model.ml" Spec.Exec.step_instr Spec.Exec.spec_step mk_Unspec set_Register_Hi.
+Extraction "model.ml" Spec.Exec.step_instr Spec.Exec.spec_step mk_Unspec set_Register_Hi set_CPU_HALT.
